@@ -187,6 +187,10 @@ def canonical_groups():
         [Item("pb", "in", G.pb_len(8, G.pb_str(1, "1") + G.pb_str(2, "me") + G.pb_len(3, b"")), ("pb",), gen="corpus"),
          Item("pb", "in", G.pb_len(8, G.pb_str(1, "1") + G.pb_str(2, "me") + G.pb_len(3, G.pb_len(2, b""))), ("pb",), gen="corpus")],
         [Item("ak", "-", k.encode("latin1"), ("ak",), gen="corpus") for k in G.APIKEYS],
+        # recorded defect unanswered-leave-root-obo-other-user: attached on behalf of one user, {leave} on behalf of another
+        [I("root", '{"sub":{"id":"20","topic":"@GG@"},"extra":{"obo":"@U1@"}}'),
+         I("root", '{"leave":{"id":"21","topic":"@GG@"},"extra":{"obo":"@U2@"}}'),
+         I("root", '{"leave":{"id":"22","topic":"@GG@"},"extra":{"obo":"@U1@"}}')],
     ]
     return gs
 
@@ -384,7 +388,12 @@ def monitor(cfg, group, items, results):
         # only the {data} echo to attached sessions is sent; it is not counted as an unanswered request
         if ((single and kind != "note") or dec in ("err", "none")) and not (kind == "pub" and r["id"] == ""):
             if not r["frames"]:
-                yield ("unanswered-" + (kind if single else dec), k, "request got no reply on the requesting session (state %s)" % r["st"])
+                law = "unanswered-" + (kind if single else dec)
+                if kind == "leave" and "/obo" in dec and it.sess == "root":
+                    # recorded defect (KNOWN_FINDINGS.txt): a root session attached to the topic as ONE user sends {leave} on
+                    # behalf of ANOTHER user: handleLeaveRequest finds no session attached as that user and says nothing
+                    law = "unanswered-leave-root-obo-other-user"
+                yield (law, k, "request got no reply on the requesting session (state %s)" % r["st"])
                 continue
         exp = expected_error(it, r)
         if exp is not None:
